@@ -263,9 +263,10 @@ def rand_transform(rng, name, g, groups=1, parameter=True):
     if name in NONRIGID:
         if "FreeForm" in name:
             g = g.align_corners(True)
-            t = cls(g, groups=groups, stride=rng.choice([1, 2]))
+            t = cls(g, groups=groups, stride=rng.choice([1, 2, 3]))
         else:
-            t = cls(g, groups=groups)
+            # coarse parameter lattice (stride > 1), buffer resized to the grid or kept coarse
+            t = cls(g, groups=groups, stride=rng.choice([1, 2, 2, 3]), resize=rng.random() < 0.5)
         with torch.no_grad():
             t.params.copy_(r(*t.params.shape, lo=-0.12, hi=0.12))
         return t
@@ -530,11 +531,45 @@ def oracle(p):
                         fail(f"C06:{cname}.tensor:{kind}:{what}" if comp.linear else f"C06:{cname}.forward:{kind}:{what}",
                              f"{cname} of {mem_names}: result differs from " + ("members applied in listed order" if cname == "SequentialTransform" else "x + sum of member displacements") +
                              f" by {dd:.3g}", members=mem_names, D=D)
+                    # transform(lattice, grid=True) must be transform(lattice): only the first member may treat the points as its lattice
+                    xg = g.coords().unsqueeze(0)
+                    dg = float((comp(xg, grid=True) - comp(xg)).abs().max())
+                    if dg > tol:
+                        fail(f"C06:{cname}.forward:grid-flag:later-member-treated-as-lattice",
+                             f"{cname} of {mem_names}: transform(lattice, grid=True) differs from transform(lattice) by {dg:.3g} "
+                             f"(a member after the first one resizes its field instead of interpolating it)", members=mem_names, D=D)
                     if changed:
                         fail(f"C06:{cname}.tensor:overwrites-member-parameters", f"{cname} of {mem_names}: evaluating the composite changed the tensor of member(s) {changed} in place",
                              members=mem_names, D=D)
             except Exception as e:  # noqa
                 fail(f"C06:{cname}:raises:{type(e).__name__}", f"{cname} of {mem_names} raises {type(e).__name__}: {str(e)[:200]}", members=mem_names, D=D)
+    # all-linear multi-level composites of 3..5 levels: point map, matrix and dense field vs the member-wise sum of displacements
+    for k in (3, 4, 5):
+        for D in (2, 3):
+            g = rgrid(rng, D)
+            pool = [c for c in LINEAR[:7] if D == 3 or c != "QuaternionRotation"]
+            mem_names = [rng.choice(pool) for _ in range(k)]
+            try:
+                members = [rand_transform(rng, nm, g, 1) for nm in mem_names]
+                ml = S.MultiLevelTransform(g, *members)
+                with torch.no_grad():
+                    x = torch.rand(1, 6, D) * 1.2 - 0.6
+                    ref = x + sum(m(x) - x for m in members)
+                    m_ = as_homogeneous_matrix(ml.tensor())
+                    views = {"points": ml(x), "matrix": x @ m_[0, :, :D].T + m_[0, :, D]}
+                    xg = g.coords().unsqueeze(0)
+                    refg = xg + sum(m(xg) - xg for m in members)
+                    views["disp"] = xg + ml.disp().movedim(1, -1)
+                    note(f"MultiLevelTransform:all-linear:k={k}")
+                    for vn, val in views.items():
+                        dd = float((val - (refg if vn == "disp" else ref)).abs().max())
+                        if dd > tol:
+                            fail("C06:MultiLevelTransform.tensor:linear-members:not-sum-of-displacements",
+                                 f"MultiLevelTransform of {k} linear members {mem_names} (D={D}): {vn} view differs from x + sum of member displacements by {dd:.3g}",
+                                 members=mem_names, D=D, view=vn)
+                            break
+            except Exception as e:  # noqa
+                fail(f"C06:MultiLevelTransform:raises:{type(e).__name__}", f"MultiLevelTransform of {mem_names} raises {type(e).__name__}: {str(e)[:200]}", members=mem_names, D=D)
     # gradient-enabled evaluation of a multi-level composite of homogeneous members (in-place add on a Parameter)
     try:
         g = rgrid(rng, 2)
@@ -544,14 +579,23 @@ def oracle(p):
     except RuntimeError as e:
         fail("C06:MultiLevelTransform.tensor:in-place-on-parameter:RuntimeError", f"MultiLevelTransform of two HomogeneousTransforms cannot be evaluated with gradients enabled: {str(e)[:120]}")
     # ---- 4. warping is the pull-back (oracle: points(axes=WORLD) + sampling the source image at that world point)
-    for i in range(max(24, n // 3)):
+    seqs = [("RigidTransform", "DisplacementFieldTransform"), ("Translation", "StationaryVelocityFieldTransform"),
+            ("AnisotropicScaling", "DisplacementFieldTransform"), ("EulerRotation", "FreeFormDeformation"),
+            ("DisplacementFieldTransform", "AffineTransform")]
+    for i in range(max(24, n // 3) + 2 * len(seqs)):
         name = (LINEAR + NONRIGID)[i % len(names)]
+        seq = seqs[(i - max(24, n // 3)) % len(seqs)] if i >= max(24, n // 3) else None
         D = 2 if i % 3 else 3
         if name in ("QuaternionRotation", "RigidQuaternionTransform"):
             D = 3
-        ac = rng.random() < 0.5 or "FreeForm" in name
+        ac = rng.random() < 0.5 or "FreeForm" in name or (seq is not None and any("FreeForm" in s_ for s_ in seq))
         g = rgrid(rng, D, ac=ac)
-        t = rand_transform(rng, name, g, 1)
+        if seq is not None:
+            g = Grid(size=[int(v) + 4 for v in g.size()], spacing=g.spacing(), center=g.center(), direction=g.direction(), align_corners=ac)
+            t = S.SequentialTransform(g, *[rand_transform(rng, nm, g, 1) for nm in seq])
+            name = "SequentialTransform[" + " -> ".join(seq) + "]"
+        else:
+            t = rand_transform(rng, name, g, 1)
         g = t.grid()
         kinds = ["own", "same-domain-resized", "other-domain"]
         for kind in kinds:
@@ -583,7 +627,7 @@ def oracle(p):
                     if ok.any():
                         dd = float(((out - exp).abs() * ok).max())
                         if dd > 5e-4 * (1 + float(exp.abs().max())):
-                            k = "linear" if t.linear else "nonrigid"
+                            k = "linear" if t.linear else ("sequence" if seq is not None else "nonrigid")
                             fail(f"C06:ImageTransformer.forward:{k}:target-{kind}", f"ImageTransformer({name}, target={kind}): output differs from image(T(x)) by {dd:.3g} "
                                  f"(ramp image, linear interpolation)", cls=name, D=D, kind=kind)
             except Exception as e:  # noqa
